@@ -86,7 +86,29 @@ Vecs == SetToSeq({{[d |-> x, e |-> TbcdEnc(x)] : x \\in All}})
                        java_opts=("-Xmx3g",))
 
 
+def _tbcd_job(digits):
+    def job():
+        from bromelia import utils
+        from bromelia.avps import MsisdnAVP, StnSrAVP
+        out = []
+        for d in digits:
+            e = utils.encode_to_tbcd(d)
+            out.append([e, utils.decode_from_tbcd(e), MsisdnAVP(int(d)).data.hex() if d[0] != "0" else "", StnSrAVP(d).data.hex() if d[0] != "0" else ""])
+        return out
+    return job
+
+
+def purity(rep):
+    """two threads encoding / decoding at the same time, both doing the first TBCD call of their process"""
+    from engine import concur
+    pairs = [("first encode of the process in both threads", _tbcd_job(["5511987654321", "98", "7"]), _tbcd_job(["31", "5599", "123456789012345"])),
+             ("odd and even lengths", _tbcd_job(["12345"]), _tbcd_job(["123456", "0"]))]
+    return concur.purity_stage(rep, "the TBCD functions", pairs[:1 if rep.tier == "quick" else 2],
+                               ("/bromelia/utils.py", "/bromelia/avps/etsi_3gpp/ts_129_329.py", "/bromelia/avps/etsi_3gpp/ts_129_272.py"), kmax=400)
+
+
 def run(rep):
+    purity(rep)
     api = _api()
     maxlen = 5 if rep.tier == "quick" else 6
     rep.rule = (f"V: every digit string of length 1..{maxlen} (TLC enumerates, proves Dec(Enc(d)) = d and the "
@@ -148,6 +170,10 @@ def run(rep):
 
 
 def replay(rep, path):
+    if json.load(open(path))["replay"].get("kind") == "purity":
+        purity(rep)
+        rep.sample(json.load(open(path))["replay"])
+        return rep.finish()
     api = _api()
     ds = json.load(open(path))["replay"]["digits"]
     d = [int(c) for c in ds]
